@@ -44,6 +44,48 @@ def fname(fn: FunctionInfo) -> str:
     return f"{fn.cls.name}.{fn.name}" if fn.cls else fn.qualname.replace("linear_operator.", "", 1)
 
 
+_KEY_SHAPES: Dict[str, str] = {}   # memoize primitive -> "tuple" | "bare" | "tuple-any", derived from memoize.py on every run
+_WRITE_SHAPE: List[Optional[str]] = [None]
+_VACUOUS: List[str] = []
+
+
+def _compatible(write_shape: str, probe_shape: str) -> bool:
+    return (write_shape == "tuple" and probe_shape in ("tuple", "tuple-any")) or (write_shape == "bare" and probe_shape == "bare")
+
+
+def derive_key_shapes(idx: ProgramIndex) -> Dict[str, str]:
+    """Key shape written / probed by each primitive of utils/memoize.py, read from its code."""
+    m = idx.modules.get("linear_operator.utils.memoize")
+    out: Dict[str, str] = {}
+    if m is None:
+        return out
+    for name, fn in m.functions.items():
+        for n in ast.walk(fn.node):
+            if isinstance(n, ast.Assign):
+                for t in n.targets:
+                    if isinstance(t, ast.Subscript) and isinstance(t.value, ast.Attribute) and t.value.attr == "_memoize_cache":
+                        out[name] = "tuple" if isinstance(t.slice, ast.Tuple) else "bare"
+            if isinstance(n, ast.Compare) and len(n.ops) == 1 and isinstance(n.ops[0], ast.In):
+                c = n.comparators[0]
+                if isinstance(c, ast.Attribute) and c.attr == "_memoize_cache":
+                    out.setdefault(name, "tuple" if isinstance(n.left, ast.Tuple) else "bare")
+                elif isinstance(c, (ast.ListComp, ast.GeneratorExp)) and "_memoize_cache" in norm(c) and "[0]" in norm(c.elt):
+                    out.setdefault(name, "tuple-any")
+    # public wrappers inherit from the primitive they call
+    changed = True
+    while changed:
+        changed = False
+        for name, fn in m.functions.items():
+            if name in out:
+                continue
+            for n in ast.walk(fn.node):
+                if isinstance(n, ast.Call) and isinstance(n.func, ast.Name) and n.func.id in out:
+                    out[name] = out[n.func.id]
+                    changed = True
+                    break
+    return out
+
+
 def unset_test(test: ast.AST, obj: str, channel: str) -> Optional[bool]:
     """Polarity of the branch on which `obj.channel` is NOT yet set, if `test` is such a test (else None)."""
     neg = False
@@ -62,6 +104,12 @@ def unset_test(test: ast.AST, obj: str, channel: str) -> Optional[bool]:
         res = False  # hasattr true => set
     elif isinstance(t, ast.Call) and (dotted(t.func) or "").split(".")[-1] in MEMO_TESTS and t.args and norm(t.args[0]) == obj \
             and channel == "_memoize_cache":
+        # the probe must be able to SEE what the guarded write stores: a bare-name probe never sees a (name, args, kwargs)
+        # key and vice versa - such a guard is vacuous, the write is not write-once
+        probe = _KEY_SHAPES.get((dotted(t.func) or "").split(".")[-1])
+        if _WRITE_SHAPE[0] is not None and probe is not None and not _compatible(_WRITE_SHAPE[0], probe):
+            _VACUOUS.append(norm(t))
+            return None
         res = False  # in cache => set
     if res is None:
         return None
@@ -175,6 +223,11 @@ def run(idx: ProgramIndex, rep: Report, tier: str, selftest: bool = True):
     rep.rule("C12.K", "ignore_args caches only on methods whose arguments cannot change the result", floor=25)
     rep.rule("C12.D", "denotation attributes are never re-assigned outside __init__", floor=30)
     rep.rule("C12.H", "a cache-hit shortcut returns what the miss path returns", floor=0)
+    _KEY_SHAPES.clear()
+    _KEY_SHAPES.update(derive_key_shapes(idx))
+    rep.analysed["memoize_key_shapes"] = dict(_KEY_SHAPES)
+    if len(_KEY_SHAPES) < 6:
+        raise AnalysisError(f"could not derive the key shapes of the memoize primitives ({_KEY_SHAPES})")
 
     base = idx.operator_base()
     channels_seen: Dict[str, List[str]] = {}
@@ -383,8 +436,20 @@ def run(idx: ProgramIndex, rep: Report, tier: str, selftest: bool = True):
                         v = a.value
                         if isinstance(v, ast.Call) or isinstance(v, ast.BinOp):
                             fresh = True
+            _WRITE_SHAPE[0] = _KEY_SHAPES.get(leaf)
+            del _VACUOUS[:]
             g = guarded_locally(fn, n, obj, "_memoize_cache", set())
-            sample = {"channel": f"_memoize_cache[{key}] of {obj}", "write": short(call, 90), "in": where}
+            _WRITE_SHAPE[0] = None
+            sample = {"channel": f"_memoize_cache[{key}] of {obj}", "write": short(call, 90), "in": where,
+                      "key_shape": _KEY_SHAPES.get(leaf)}
+            if g is None and _VACUOUS and not fresh:
+                rep.bad("C12.W", Finding(
+                    PROP, "C12.W", where, norm(call) + " [vacuous guard]",
+                    f"{where} stores into the cache of `{obj}` under {key} behind `{_VACUOUS[0][:70]}`, but that probe looks for a "
+                    f"{_KEY_SHAPES.get((_VACUOUS[0].split('(')[0]).split('.')[-1], '?')} key while the write (and every @cached writer) stores a "
+                    f"{_KEY_SHAPES.get(leaf)} key: the guard can never see an existing entry, so an already cached result is replaced - "
+                    "the same query then answers differently than on a fresh copy", fn.loc(call)), sample)
+                continue
             if g is not None:
                 rep.ok("C12.W", {**sample, "discipline": g})
             elif fresh:
@@ -569,6 +634,18 @@ def run(idx: ProgramIndex, rep: Report, tier: str, selftest: bool = True):
     rep.analysed["dead_channels"] = dead_channels
     rep.analysed["attribute_channels"] = {k: sorted(set(v)) for k, v in sorted(channels_seen.items())}
 
+    # ---------------------------------------------------------------- M
+    # cached results and recorded tensors are handed out BY REFERENCE: an in-place write into operator-held storage (the
+    # ownership engine of C13, provenance SELF) changes what every later query on this - or a sibling - operator returns
+    from .c13 import write_findings_for
+
+    rep.rule("C12.M", "no in-place write into storage held by an existing operator (cached results, recorded tensors)", floor=100)
+    write_findings_for(idx, rep, PROP, "C12.M", lambda f: "attribute of self" in f.message,
+                       prefix="a later query on the same (or a sibling) operator sees the modified value: ")
+
+    from ..recordmut import report_denotation_container_mutations
+
+    report_denotation_container_mutations(idx, rep, PROP, "C12.D")
     if selftest:
         from ..selftest import run_fixtures
 
